@@ -545,8 +545,11 @@ func TestVerifGME(t *testing.T) {
 			def = "" // no default named at all
 		}
 		fail := ""
-		if rng.Intn(6) == 0 {
+		if rng.Intn(4) == 0 {
 			fail = eps[rng.Intn(len(eps))]
+			if rng.Intn(3) == 0 {
+				fail += "+" + eps[rng.Intn(len(eps))]
+			}
 		}
 		rng.Shuffle(len(items), func(i, j int) { items[i], items[j] = items[j], items[i] })
 		return def, strings.Join(items, ","), fail
